@@ -150,6 +150,12 @@ func (a *AVP) Len() int {
 	return a.headerLen() + a.Data.Len() + a.Data.Padding()
 }
 
+// wireLen returns the number of bytes a decoded AVP occupies in its
+// container: the declared length rounded up to a multiple of four.
+func (a *AVP) wireLen() int {
+	return a.Length + ((4 - a.Length) & 3)
+}
+
 func (a *AVP) headerLen() int {
 	if a.Flags&avp.Vbit == avp.Vbit {
 		return 12
